@@ -145,7 +145,8 @@ PROPS = {
              "as an ordered tree, Custom callbacks observe the model's current value, the caller's bytes are unchanged. non-trivial = >= 2 matchers, path depth >= 2, key needing escape, array element, or "
              "placeholder not longer than the value with []byte input; distinct = distinct canonical JSON",
         assumptions=ASSUME_WB + ["YAML output is parsed with goccy/go-yaml (ordered maps): the only YAML parser available offline", "a reported matcher error is a legal outcome"],
-        stages=[dict(name="matchers", run="^TestC15_", quick=800, thorough=10000, shards_quick=4, shards_thorough=16)],
+        stages=[dict(name="matchers", run="^TestC15_", quick=800, thorough=10000, shards_quick=4, shards_thorough=16),
+                dict(name="k6probe", run="^TestC15K6_", quick=1, thorough=1, shards_quick=1, shards_thorough=1)],
     ),
     "C16": dict(
         rule="case = document D (JSON tree or block YAML), 1-3 pairwise non-nested masked paths with matchers satisfiable on D (Any with plain/non-ASCII/quoted placeholders, Type[T] of the node's type, Custom returning a constant), "
